@@ -177,6 +177,36 @@ def d2_text(ctx):
                       'the floats of a correlator block are parsed from `%s` without a preceding test that the block is complete: a file cut inside the block yields a '
                       'wrong (shortened) number or a shortened record without an error' % unparse(s.iter), m.loc(s))
     ctx.floor('float-parsing loops in sfcf.py', n, 3)
+    # provenance of the evidence: the completeness tests look at the number of lines and at the trailing newline of the last
+    # line; both prove something about the file only if the list of lines is the file's own (readlines / list(fp) / unchanged
+    # iteration).  A comprehension that rewrites the lines (strip + '\n', split/join) manufactures the evidence.
+    nsrc = 0
+    for q, f in m.functions():
+        for w in walk(f):
+            if not isinstance(w, ast.With):
+                continue
+            handles = {it.optional_vars.id for it in w.items if isinstance(it.optional_vars, ast.Name) and isinstance(it.context_expr, ast.Call) and call_name(it.context_expr) == 'open'}
+            if not handles:
+                continue
+            for st in statements(w):
+                if not isinstance(st, ast.Assign):
+                    continue
+                v = st.value
+                if not any(isinstance(x, ast.Name) and x.id in handles for x in ast.walk(v)):
+                    continue
+                nsrc += 1
+                raw = False
+                if isinstance(v, ast.Call) and isinstance(v.func, ast.Attribute) and v.func.attr in ('readlines', 'readline', 'read') and isinstance(v.func.value, ast.Name) and v.func.value.id in handles:
+                    raw = True
+                if isinstance(v, ast.Call) and call_name(v) == 'list' and len(v.args) == 1 and isinstance(v.args[0], ast.Name) and v.args[0].id in handles:
+                    raw = True
+                if isinstance(v, ast.ListComp) and len(v.generators) == 1 and isinstance(v.generators[0].iter, ast.Name) and v.generators[0].iter.id in handles \
+                        and isinstance(v.elt, ast.Name) and unparse(v.elt) == unparse(v.generators[0].target):
+                    raw = True
+                key = 'input/sfcf.py:%s#raw-lines[%s]' % (q, unparse(st.targets[0]))
+                ctx.check(rule, key, raw, 'the lines are the file\'s own (%s)' % unparse(v)[:40],
+                          'the lines read from the file are rewritten (`%s`) before the completeness tests see them: a trailing newline or the number of lines no longer proves that the last line was written completely' % unparse(v)[:80], m.loc(st))
+    ctx.floor('line sources in sfcf.py', nsrc, 3)
 
 
 def d3_archives(ctx):
@@ -222,6 +252,8 @@ def run(ctx):
 
 
 SELFTEST = [
+    ('lines-rewritten-before-completeness-test', 'pyerrors/input/sfcf.py', "        content = fp.readlines()", "        content = [ln.strip() + '\\n' for ln in fp.readlines()]", 'C18-D2'),
+    ('benign-list-fp', 'pyerrors/input/sfcf.py', "        content = fp.readlines()", "        content = list(fp)", 'BENIGN'),
     ('fix-reverted-o', 'pyerrors/input/sfcf.py', "                if len(corr_lines) < T or not corr_lines[-1].endswith('\\n'):\n                    raise Exception(\"EOF before end of correlator data! Maybe \" + file + \" is corrupted?\")\n", "", 'C18-D2'),
     ('compact-check-removed', 'pyerrors/input/sfcf.py', "            if (start_read + T + 1 > len(lines)):\n                raise Exception(\"EOF before end of correlator data! Maybe \" + rep_path + cfg_file + \" is corrupted?\")\n", "", 'C18-D2'),
     ('raw-bytes', 'pyerrors/input/openQCD.py', "                    t = fp.read(8 * tmax * (nn + 1))\n                    # unpack the array of Qtops,\n                    # on each timeslice t=0,...,tmax-1 and the\n                    # measurement number in = 0...nn (see README.qcd1)\n                    tmpd = struct.unpack('d' * tmax * (nn + 1), t)", "                    t = fp.read(8 * tmax * (nn + 1))\n                    tmpd = tuple(np.frombuffer(t, dtype=np.float64))", 'C18-D1'),
